@@ -19,15 +19,31 @@ func init() {
 // The reviver family (the Lean driver holds the same table, Driver.reviverFn).  Each is built by a
 // factory that receives the array the keys of the calls are logged to.
 var reviverSrc = []string{
-	`(function(log){return function(k,v){log.push(k);return v}})`,
-	`(function(log){return function(k,v){log.push(k);return k==="a"?undefined:v}})`,
-	`(function(log){return function(k,v){log.push(k);return typeof v==="number"?undefined:v}})`,
-	`(function(log){return function(k,v){log.push(k);return typeof v==="string"?k:v}})`,
-	`(function(log){return function(k,v){log.push(k);return typeof v==="boolean"?null:v}})`,
-	`(function(log){return function(k,v){log.push(k);return (k!==""&&typeof v==="object")?"o":v}})`,
-	`(function(log){return function(k,v){log.push(k);return (k==="b"||k==="1")?undefined:v}})`,
-	`(function(log){return function(k,v){log.push(k);if(k==="a")delete this.b;return v===undefined?"u":v}})`,
-	`(function(log){return function(k,v){log.push(k);if(k==="a")delete this.b;return v}})`,
+	revSrc(``, `v`),
+	revSrc(``, `k==="a"?undefined:v`),
+	revSrc(``, `typeof v==="number"?undefined:v`),
+	revSrc(``, `typeof v==="string"?k:v`),
+	revSrc(``, `typeof v==="boolean"?null:v`),
+	revSrc(``, `(k!==""&&typeof v==="object")?"o":v`),
+	revSrc(``, `(k==="b"||k==="1")?undefined:v`),
+	revSrc(`if(!A&&k==="a")delete this.b;`, `v===undefined?"u":v`),
+	revSrc(`if(!A&&k==="a")delete this.b;`, `v`),
+	revSrc(`if(A&&k==="1")this.length=1;`, `v`),
+	revSrc(`if(A&&k==="0")this.length=5;`, `v`),
+	revSrc(`if(A&&k==="0")this.push(7);`, `v`),
+	revSrc(`if(A&&k==="1")this.pop();`, `v`),
+	revSrc(`if(A&&k==="0")delete this[2];`, `v`),
+	revSrc(`if(A&&k==="0")this[2]="x";if(A&&k==="2")this[0]="y";`, `v`),
+	revSrc(`if(A&&k==="1")this.length=1;`, `v===undefined?"u":v`),
+	revSrc(`if(!A&&k==="a")this.zz=7;`, `v`),
+	revSrc(`if(A)this.push(7);`, `v`),
+	revSrc(`if(A&&k==="1")this[5]="x";`, `v`),
+}
+
+// revSrc builds a logging reviver factory: the log entry is the holder kind (A array / O object)
+// followed by the key; `effect` is what the reviver does to its holder before it returns `result`.
+func revSrc(effect, result string) string {
+	return `(function(log){return function(k,v){var A=Array.isArray(this);log.push((A?"A":"O")+k);` + effect + `return ` + result + `}})`
 }
 
 func implC11(line string) string {
@@ -386,6 +402,26 @@ func (g *gen) strLit(u []uint16) []uint16 {
 		}
 	}
 	return append(out, '"')
+}
+
+// arrayText is an array of 0..6 elements, some of them arrays or objects again.
+func (g *gen) arrayText(depth int) []uint16 {
+	r := g.r
+	out := []uint16{'['}
+	for i, n := 0, r.Intn(7); i < n; i++ {
+		if i > 0 {
+			out = append(out, ',')
+		}
+		switch {
+		case depth > 0 && r.Chance(20):
+			out = append(out, g.arrayText(depth-1)...)
+		case depth > 0 && r.Chance(15):
+			out = append(out, asciiUnits([]string{`{"a":1,"b":[1,2,3]}`, `{"b":2,"a":{"a":1,"b":2}}`, `{}`}[r.Intn(3)])...)
+		default:
+			out = append(out, asciiUnits([]string{"1", "2", "null", "true", `"s"`, "0.5"}[r.Intn(6)])...)
+		}
+	}
+	return append(out, ']')
 }
 
 func (g *gen) jsonText(depth int) []uint16 {
@@ -780,13 +816,17 @@ func genC11(c *h.Ctx) {
 		}
 	}
 	gc := &gen{r: c.Rng, bd: g.bd, clean: true}
-	for _, s := range []string{`{"a":1,"b":2,"c":3}`, `{"a":1,"b":2}`, `{"b":1,"a":2}`, `{"c":0,"a":1,"d":{"a":[],"b":{"a":1,"b":2}},"b":2}`, `[{"a":1,"b":[1]},{"a":1}]`, `[1,2,3]`, `{"a":[1,"x",true],"b":{"c":3}}`, `{"c":1,"a":2,"b":3,"z":4}`, `[{"a":1,"b":2,"1":3}]`, `{"a":{"a":1,"b":"s","c":null}}`, `1`, `"s"`, `null`, `[]`, `{}`, `{"a":1,"a":2,"b":3}`, `[[1,[2]],{"x":[]}]`} {
+	for _, s := range []string{`[1,2,3,4]`, `[1,2,3]`, `[[1,2,3,4],[5,6,7]]`, `{"a":[1,2,3,4],"b":[1]}`, `[{"a":1,"b":2},[1,[2,3,4],3],4]`, `[1,2]`, `[1]`, `[]`, `{"1":[1,2,3],"0":2}`, `{"a":1,"b":2,"c":3}`, `{"a":1,"b":2}`, `{"b":1,"a":2}`, `{"c":0,"a":1,"d":{"a":[],"b":{"a":1,"b":2}},"b":2}`, `[{"a":1,"b":[1]},{"a":1}]`, `[1,2,3]`, `{"a":[1,"x",true],"b":{"c":3}}`, `{"c":1,"a":2,"b":3,"z":4}`, `[{"a":1,"b":2,"1":3}]`, `{"a":{"a":1,"b":"s","c":null}}`, `1`, `"s"`, `null`, `[]`, `{}`, `{"a":1,"a":2,"b":3}`, `[[1,[2]],{"x":[]}]`} {
 		for id := range reviverSrc {
 			c.Add(fmt.Sprintf("parse %s v%d", tt(goUnits(s)), id), "revive:fixed")
 		}
 	}
 	for i := 0; i < c.N(2500, 120000); i++ {
 		c.Add(fmt.Sprintf("parse %s v%d", tt(gc.jsonText(3)), c.Rng.Intn(len(reviverSrc))), "revive:random")
+	}
+	// arrays of 0..6 elements (nested) under the revivers that change the holder
+	for i := 0; i < c.N(2500, 100000); i++ {
+		c.Add(fmt.Sprintf("parse %s v%d", tt(gc.arrayText(2)), 7+c.Rng.Intn(len(reviverSrc)-7)), "revive:holder")
 	}
 	// runtimes whose Object.prototype intercepts [[Put]] of "a" and ""
 	for _, s := range []string{`{"a":1}`, `{"a":1,"b":2}`, `{"b":{"a":[1,{"a":2}]}}`, `[{"a":1}]`, `{"":1,"c":2}`, `{"b":1}`, `[1,2]`, `1`, `{"a":1,"a":2,"b":3}`} {
